@@ -340,7 +340,26 @@ pub fn random_inplace_damage(image: &Image, extents: &[(String, u64)], draw: u64
     let span = if splitmix(&mut rng) % 8 == 0 { file_len } else { (*written + 64).min(file_len).max(1) };
     let off = splitmix(&mut rng) % span;
     let content = &image.files[name];
-    Some(match splitmix(&mut rng) % 6 {
+    Some(match splitmix(&mut rng) % 7 {
+        6 => {
+            // a whole block overwritten with one 7-byte pattern repeated: something that LOOKS like a run of empty frame
+            // headers (len 0, a valid type byte) but whose checksum bytes are not the CRC of an empty frame of that type
+            let block = off / BLOCK as u64;
+            let frame_type = 1 + (splitmix(&mut rng) % 4) as u8;
+            let valid = crc32_frame(frame_type, &[]).to_le_bytes();
+            let mut crc = match splitmix(&mut rng) % 3 {
+                0 => [0u8; 4],
+                1 => (splitmix(&mut rng) as u32).to_le_bytes(),
+                _ => [0xFF; 4],
+            };
+            if crc == valid {
+                crc[0] ^= 1;
+            }
+            let mut pattern = crc.to_vec();
+            pattern.extend_from_slice(&[0, 0, frame_type]);
+            let bytes: Vec<u8> = pattern.iter().copied().cycle().take(BLOCK).collect();
+            CDamage::Write { name: name.clone(), off: block * BLOCK as u64, hex: to_hex(&bytes) }
+        }
         0 | 1 => {
             let byte = content[off as usize] ^ (1 << (splitmix(&mut rng) % 8));
             CDamage::Write { name: name.clone(), off, hex: to_hex(&[byte]) }
